@@ -583,10 +583,8 @@ func checkC18(p *core.Program, r *core.Report) {
 		var lookups []*ssa.Call
 		for x := range core.BackSlice(content, func(*ssa.Call) bool { return true }) {
 			if ex, ok := x.(*ssa.Extract); ok && ex.Index == 0 {
-				if g, ok := ex.Tuple.(*ssa.Call); ok {
-					if o := core.CalleeObj(&g.Call); o != nil && core.ObjName(o) == "flows.Run.GetText" {
-						lookups = append(lookups, g)
-					}
+				if g, ok := ex.Tuple.(*ssa.Call); ok && c18TextAndLanguage(g, 0) {
+					lookups = append(lookups, g)
 				}
 			}
 		}
@@ -715,6 +713,7 @@ func c18R3(p *core.Program, r *core.Report) {
 		owner string
 		key   string
 		pos   token.Pos
+		uuidOf []string // the struct types the UUID handed to the lookup is read from
 	}
 	var uses []use
 	for _, cs := range p.CallsToName("flows.Run.GetText", "flows.Run.GetTextArray") {
@@ -734,7 +733,29 @@ func c18R3(p *core.Program, r *core.Report) {
 		if rn := recvNamed(rootFn(cs.Caller)); rn != nil {
 			owner = core.QualName(rn)
 		}
-		uses = append(uses, use{owner, key, cs.Pos()})
+		// whose UUID is passed: the struct types the first argument is read from (a field, or a UUID() method)
+		var uuidOf []string
+		namedOf := func(t types.Type) *types.Named {
+			if pt, ok := t.(*types.Pointer); ok {
+				t = pt.Elem()
+			}
+			n, _ := t.(*types.Named)
+			return n
+		}
+		for w := range core.BackSlice(cs.Common().Args[0], func(*ssa.Call) bool { return true }) {
+			switch x := w.(type) {
+			case *ssa.FieldAddr:
+				if n := namedOf(x.X.Type()); n != nil {
+					uuidOf = append(uuidOf, core.QualName(n))
+				}
+			case *ssa.Parameter:
+				if n := namedOf(x.Type()); n != nil {
+					uuidOf = append(uuidOf, core.QualName(n))
+				}
+			}
+		}
+		sort.Strings(uuidOf)
+		uses = append(uses, use{owner, key, cs.Pos(), uuidOf})
 	}
 	r.Require("runtime_localization_lookups", len(uses), 10)
 	// forward: each use is declared on the owner (or, for a base type, on some struct embedding it), or listed
@@ -772,6 +793,19 @@ func c18R3(p *core.Program, r *core.Report) {
 				for _, d := range declared[core.QualName(n)] {
 					if d.json == u.key {
 						ok = true
+					}
+				}
+			}
+		}
+		// the struct whose UUID is passed declares it (a helper function without a receiver, or matchCase for Case)
+		if !ok {
+			for _, o := range u.uuidOf {
+				for _, d := range declared[o] {
+					if d.json == u.key {
+						ok = true
+						if u.owner == "" {
+							key = o + "/" + u.key
+						}
 					}
 				}
 			}
@@ -826,6 +860,12 @@ func c18R3(p *core.Program, r *core.Report) {
 				}
 				if owner == "flows/routers.Case" && u.owner == "flows/routers.SwitchRouter" {
 					used = true
+				}
+				// users: the lookup is handed the UUID of the declaring struct
+				for _, o := range u.uuidOf {
+					if o == owner {
+						used = true
+					}
 				}
 			}
 			key := owner + "." + d.json + "/looked-up"
@@ -921,4 +961,46 @@ func constArgOr(v ssa.Value, dflt string) string {
 		return s
 	}
 	return dflt
+}
+
+// c18TextAndLanguage: the call yields a text (result 0) together with the language it was found in (result 1): it is
+// Run.GetText, or a function of the module every return of which hands on text derived from result 0 and, as its
+// second result, result 1 of one and the same such call.
+func c18TextAndLanguage(g *ssa.Call, depth int) bool {
+	if o := core.CalleeObj(&g.Call); o != nil && core.ObjName(o) == "flows.Run.GetText" {
+		return true
+	}
+	f := g.Call.StaticCallee()
+	if f == nil || len(f.Blocks) == 0 || depth > 2 || !core.InModule(core.FuncPkgPath(f)) || f.Signature.Results().Len() != 2 {
+		return false
+	}
+	rets := core.Returns(f)
+	if len(rets) == 0 {
+		return false
+	}
+	for _, ret := range rets {
+		ex1, ok := core.StripConv(ret.Results[1]).(*ssa.Extract)
+		if !ok || ex1.Index != 1 {
+			return false
+		}
+		k, ok := ex1.Tuple.(*ssa.Call)
+		if !ok || !c18TextAndLanguage(k, depth+1) {
+			return false
+		}
+		n, same := 0, false
+		for x := range core.BackSlice(ret.Results[0], func(*ssa.Call) bool { return true }) {
+			if ex0, ok := x.(*ssa.Extract); ok && ex0.Index == 0 {
+				if k2, ok := ex0.Tuple.(*ssa.Call); ok && c18TextAndLanguage(k2, depth+1) {
+					n++
+					if k2 == k {
+						same = true
+					}
+				}
+			}
+		}
+		if n != 1 || !same {
+			return false
+		}
+	}
+	return true
 }
